@@ -91,6 +91,13 @@ def make_data(cfg):
     R = cfg.get("regimes", 3)
     means = rng.normal(0, 3.0, size=(R, N)) * cfg.get("scale", 1.0)
     mix = [rng.normal(0, 1, size=(N, N)) * 0.5 + np.eye(N) for _ in range(R)]
+    if cfg.get("staircase"):
+        # one short plateau per regime, each on its own level: as many well-separated groups as there are regimes
+        out = []
+        for T in cfg["lengths"]:
+            lvl = (np.arange(T) // max(1, T // R)) * 10.0
+            out.append(lvl[:, None] + rng.normal(size=(T, N)) * 0.5)
+        return out
     series = []
     for T in cfg["lengths"]:
         seg = max(4, T // (R + 1))
@@ -102,8 +109,32 @@ def make_data(cfg):
             x[t:t + n] = means[r] + (rng.normal(size=(n, N)) @ mix[r].T) * cfg.get("scale", 1.0)
             t += n
             r = (r + 1 + int(rng.integers(0, max(1, R - 1)))) % R
-        series.append(x + cfg.get("offset", 0.0))
+        if cfg.get("col_scales"):
+            # sensors recorded in very different units
+            x = x * np.asarray(cfg["col_scales"], dtype=float)[None, :N]
+        x = x + cfg.get("offset", 0.0)
+        if cfg.get("data_dtype"):
+            # count-like data: the same kind of series stored in an integer (or narrower float) array
+            x = np.round(x * 4.0).astype(cfg["data_dtype"])
+        series.append(x)
     return series
+
+
+def lam_of(cfg):
+    """the sparsity weight of a configuration: cfg["lam"] (scalar) or, with cfg["lam_matrix"] in {"sym", "upper", "asym"},
+    a deterministic NW x NW matrix (symmetric / upper triangle only / different lower triangle)"""
+    kind = cfg.get("lam_matrix")
+    if not kind:
+        return cfg.get("lam", 0.11)
+    n = cfg["N"] * cfg["W"]
+    i, j = np.indices((n, n))
+    up = 0.05 + 0.02 * ((np.minimum(i, j) * 7 + np.maximum(i, j) * 3) % 5)
+    if kind == "sym":
+        return up
+    if kind == "upper":
+        return np.triu(up)
+    low = 0.3 + 0.01 * ((i * 5 + j) % 7)
+    return np.where(i <= j, up, low)
 
 
 def traced_run(cfg, extra_patches=None):
@@ -150,7 +181,7 @@ def traced_run(cfg, extra_patches=None):
     main_loop._init_task_pool = init_pool
     np.random.seed(cfg["rng_seed"])
     random.seed(cfg["rng_seed"])
-    kw = dict(window_size=cfg["W"], num_clusters=cfg["K"], sparsity_weight=cfg.get("lam", 0.11),
+    kw = dict(window_size=cfg["W"], num_clusters=cfg["K"], sparsity_weight=lam_of(cfg),
               label_switching_cost=cfg.get("beta", 5.0), iteration_limit=cfg.get("limit", 20),
               min_meaningful_covariance=cfg.get("eps", 0), num_processors=cfg.get("procs", 1),
               min_cluster_size=cfg.get("m", 2), biased_covariance=cfg.get("biased", False))
@@ -166,6 +197,7 @@ def traced_run(cfg, extra_patches=None):
                 res = front_end.ticc_joint_labels([s for s in series], **kw)
             else:
                 res = front_end.ticc_labels(series[0], **kw)
+        out["returned"] = type(res).__name__
         out["result"] = {
             "point_labels": [[int(x) for x in l] for l in res.point_labels] if cfg.get("joint") else [int(x) for x in res.point_labels],
             "label_assignment_cost": float(res.label_assignment_cost),
@@ -180,7 +212,8 @@ def traced_run(cfg, extra_patches=None):
             "type": type(res).__name__,
         }
     except Exception as e:  # noqa
-        out["error"] = "%s: %s" % (type(e).__name__, str(e)[:300])
+        out["error"] = "%s%s: %s" % ("the call returned a %s whose fields could not be read - " % out["returned"] if out.get("returned") else "",
+                                    type(e).__name__, str(e)[:300])
     finally:
         main_loop._init_task_pool = orig_init
         _verif.clear_listeners()
@@ -191,8 +224,34 @@ def traced_run(cfg, extra_patches=None):
     return out
 
 
+def report_errors(ctx, runs):
+    """Every configuration of the shared grids completes on the tree the checks were validated on.  A run that raises is
+    reported with its configuration as the concrete input - except the two library errors a legitimate change of the
+    random initialisation can bring about (donor shortage: RuntimeError; singular fit: LinAlgError), which only make the
+    run one that 'does not complete'."""
+    seen = ctx.notes.setdefault("_reported_run_errors", [])
+    for r in runs:
+        e = r.get("error")
+        if not e:
+            continue
+        key = repr(r["cfg"])
+        if key in seen:
+            continue
+        seen.append(key)
+        if (e.startswith("RuntimeError") and "donor" in e.lower()) or e.startswith("LinAlgError"):
+            ctx.notes.setdefault("runs_not_completed", []).append(e[:80])
+            continue
+        ctx.violation("monitor", "an end-to-end run raised instead of returning a result: %s" % e[:200], {"case": {"cfg": r["cfg"]}, "error": e})
+
+
 def cached_runs(ctx, cfgs, tag):
     """run (or fetch from the run cache keyed by the hash of /repo/src/fast_ticc) a list of configurations"""
+    runs = _cached_runs(ctx, cfgs, tag)
+    report_errors(ctx, runs)
+    return runs
+
+
+def _cached_runs(ctx, cfgs, tag):
     d = os.path.join(core.WORK, "runcache")
     os.makedirs(d, exist_ok=True)
     harness = hashlib.sha256(open(__file__, "rb").read()).hexdigest()[:12]
